@@ -22,6 +22,6 @@ def gen_constexpr(build_dir, seed):
         f.write('#include <stdint.h>\n#include "librfn/constexpr.h"\n')
         f.write('const unsigned ce_n = %d;\n' % len(vals))
         f.write('const uint64_t ce_in[] = {\n' + ''.join('\t0x%016xull,\n' % v for v in vals) + '};\n')
-        f.write('const int ce_pop[] = {\n' + ''.join('\tconst_pop(0x%016xull),\n' % v for v in vals) + '};\n')
-        f.write('const int ce_lssb[] = {\n' + ''.join('\tconst_lssb(0x%016xull),\n' % v for v in vals) + '};\n')
+        f.write('const long long ce_pop[] = {\n' + ''.join('\tconst_pop(0x%016xull),\n' % v for v in vals) + '};\n')
+        f.write('const long long ce_lssb[] = {\n' + ''.join('\tconst_lssb(0x%016xull),\n' % v for v in vals) + '};\n')
     return [path]
